@@ -78,6 +78,12 @@ type Case struct {
 
 	RawTx  string `json:"rawtx"`  // -raw: the externally built transaction (hex)
 	Redeem string `json:"redeem"` // ms: redeem script for -p2sh
+
+	// Corrupt: damage done to balance/<txid>.tx of funding transaction CorruptIdx after the folder was written
+	// ("flip" = last byte changed: parses, other txid; "truncate"; "trailing" = one byte appended; "missing" = file removed).
+	// tx_from_balance must refuse the folder: exit 1, nothing written.
+	Corrupt    string `json:"corrupt,omitempty"`
+	CorruptIdx int    `json:"corrupt_idx,omitempty"`
 }
 
 func (c *Case) feeStr() string {
@@ -195,6 +201,23 @@ func (c *Case) setup(dir string) error {
 		b.WriteString("\n")
 	}
 	os.WriteFile(filepath.Join(dir, "balance", "unspent.txt"), []byte(b.String()), 0600)
+	if c.Corrupt != "" && c.CorruptIdx < len(c.Funding) {
+		raw, _ := hex.DecodeString(c.Funding[c.CorruptIdx])
+		tx, _ := btc.NewTx(raw)
+		tx.SetHash(raw)
+		fn := filepath.Join(dir, "balance", tx.Hash.String()+".tx")
+		switch c.Corrupt {
+		case "flip":
+			raw[len(raw)-1] ^= 1
+			os.WriteFile(fn, raw, 0600)
+		case "truncate":
+			os.WriteFile(fn, raw[:len(raw)-5], 0600)
+		case "trailing":
+			os.WriteFile(fn, append(raw, 0), 0600)
+		case "missing":
+			os.Remove(fn)
+		}
+	}
 	if c.UseBatch {
 		os.WriteFile(filepath.Join(dir, "batch.txt"), []byte(strings.Join(c.batchLines(), "\n")+"\n"), 0600)
 	}
@@ -450,6 +473,19 @@ func runSendCase(c *Case, o *vlib.Oracle, v *verdict) {
 		v.pf("wallet-hang", "the wallet did not terminate within 20 s")
 		return
 	}
+	if c.Corrupt != "" {
+		// tx_from_balance: a balance file that is missing, does not parse, or does not hash to its name ends the run
+		// (cleanExit(1)) while the folder is loaded - whatever was asked
+		v.kind = "send-corrupt-balance"
+		v.hit("corrupt-balance:" + c.Corrupt)
+		if res.Exit != 1 || len(res.NewFiles) > 0 {
+			v.pf("corrupt-balance-accepted", "balance/<txid>.tx of a listed output is damaged (%s) but the wallet went on: exit %d, files %v\n%s%s",
+				c.Corrupt, res.Exit, sortedKeys(res.NewFiles), res.Stdout, res.Stderr)
+		} else {
+			r.TieOK()
+		}
+		return
+	}
 
 	if c.W.Minsig && c.Rfc {
 		// main.go refuses this combination since fix 513217bb (before: endless re-signing loop in sign_tx)
@@ -603,7 +639,10 @@ func runSendCase(c *Case, o *vlib.Oracle, v *verdict) {
 	if !c.Valid {
 		v.kind = "send-malformed"
 		if wrote && tx != nil {
+			// the generator makes no claim about what such a request pays; what holds of EVERY written transaction is
+			// still judged on the real output: inputs are distinct listed outputs the wallet owns, every one verifies
 			v.hit("malformed-but-written")
+			reducedPredicate(c, tx, pubs, bech, v)
 		}
 		return
 	}
@@ -813,6 +852,55 @@ func runSendCase(c *Case, o *vlib.Oracle, v *verdict) {
 		}
 	}
 	v.key = fmt.Sprintf("%d in %d out %s", len(tx.TxIn), len(tx.TxOut), hx(tx.Hash.Hash[:8]))
+}
+
+// reducedPredicate: the request-independent part of the property, for transactions written for a request the generator
+// calls malformed (a comment line, an empty -fee, an unused bad -change ...): inputs ⊆ owned listed unspent outputs,
+// pairwise distinct, each verifying under consensus and standard flags; Σ outputs ≤ Σ inputs.
+func reducedPredicate(c *Case, tx *btc.Tx, pubs [][]byte, bech bool, v *verdict) {
+	seen := map[string]bool{}
+	var spent []*btc.TxOut
+	sumIn, sumOut := new(big.Int), new(big.Int)
+	for i, in := range tx.TxIn {
+		id := fmt.Sprintf("%s-%d", btc.NewUint256(in.Input.Hash[:]).String(), in.Input.Vout)
+		if seen[id] {
+			v.pf("dup-input", "input %d spends %s twice", i, id)
+			return
+		}
+		seen[id] = true
+		var u *Unspent
+		for k := range c.Unspent {
+			if c.Unspent[k].Txid == btc.NewUint256(in.Input.Hash[:]).String() && c.Unspent[k].Vout == in.Input.Vout {
+				u = &c.Unspent[k]
+			}
+		}
+		if u == nil {
+			v.pf("foreign-input", "input %d (%s) is not one of the listed unspent outputs", i, id)
+			return
+		}
+		sc, _ := hex.DecodeString(u.Script)
+		if !ownedBy(pubs, bech, sc) {
+			v.pf("foreign-input", "input %d (%s) spends %x, which is not one of the wallet's own scripts", i, id, sc)
+			return
+		}
+		spent = append(spent, &btc.TxOut{Value: u.Value, Pk_script: sc})
+		sumIn.Add(sumIn, new(big.Int).SetUint64(u.Value))
+	}
+	for _, o := range tx.TxOut {
+		sumOut.Add(sumOut, new(big.Int).SetUint64(o.Value))
+	}
+	if sumOut.Cmp(sumIn) > 0 && sumIn.BitLen() <= 64 {
+		v.pf("fee-arith", "Σoutputs %s > Σinputs %s", sumOut, sumIn)
+	}
+	for i := range tx.TxIn {
+		if !verifyInput(tx, spent, i, consensusFlags) {
+			v.pf("sig-consensus", "input %d (spending %x) does not verify under consensus flags", i, spent[i].Pk_script)
+		} else if !verifyInput(tx, spent, i, standardFlags) {
+			v.pf("sig-standard", "input %d (spending %x) verifies under consensus but not under standard flags", i, spent[i].Pk_script)
+		} else {
+			v.hit("verified(malformed request):" + scriptKind(spent[i].Pk_script))
+		}
+	}
 }
 
 // hitKeyTable records the shape of the wallet's key table (input distribution: imported keys, their forms).
@@ -1138,11 +1226,12 @@ func main() {
 	}
 	r.Assume = []string{
 		"signature validity is observed on the real output by script.VerifyTxScript (real interpreter); in Lean it is the theorem signatures_verify against the REAL script rules ScriptSpec.verifyScript (the reference semantics C01's script_equiv ties VerifyTxScript to), for every flag set with Core's flag dependencies and every oracle instance whose ecdsaVerify / schnorrVerify are C03's models; the sign=>verify facts are imported from C03 (own_signature_accepted, sign_canonical, schnorr_sign_verifies, generator_order), not assumed",
-		"remaining hypotheses of signatures_verify: hcalls (the ONE signing call the input's type needs succeeds with R != 0 - inherited from C03; CallsOk is split per input type), no_clash (signature bytes||01 are not the 20-byte key hash: FindAndDelete), nonzero (no key hash / x-only key is all-zero = false as a stack element), hash_same / hash_len, no_cross, hwit (no witness data yet on the transaction handed to sign_tx), hms (not the multisig branch), hspent, haddr, hss; all hypotheses are discharged jointly (kernel-checked) for one input of each of the four types in Props/C13.lean, with toy sha / HASH160 / tagged hash / nonce source",
+		"remaining hypotheses of signatures_verify: hcalls (the ONE signing call the input's type needs succeeds with R != 0 - inherited from C03; CallsOk is split per input type), no_clash (signature bytes||01 are not the 20-byte key hash: FindAndDelete), nonzero (no key hash / x-only key is all-zero = false as a stack element), hash_same / hash_len, hwit (no witness data yet on the transaction handed to sign_tx), hms (not the multisig branch: the incoming scriptSig is not a multisig script), hspent, hown (one of the four own scripts - PROVED from ownership for every input of a -send run: ownership_is_four_templates, send_signatures_verify), haddr, hss; no_cross is gone since fix ebf80672 (per-template look-ups); all hypotheses are discharged jointly (kernel-checked) for one input of each of the four types and for a two-key two-input -send run in Props/C13.lean, with toy sha / HASH160 / tagged hash / nonce source",
 		"the theorem's signer is C03's Signature.Sign + the DER assembly of Tx.Sign / Tx.SignWitness (wallet_der_is_c03_bytes: = Signature.Bytes()); that btc.EcdsaSign hands Sign's (R,S) through is tied here in -rfc6979 runs only (signer-tie: the wallet's DER bytes = the model's); random-nonce ECDSA and Schnorr signatures are judged by script.VerifyTxScript alone",
 		"digest signed = digest verified is PROVED (digests_read_skeleton_only: C02's models of SignatureHash / WitnessSigHash / TaprootSigHash read no scriptSig and no witness; the hash cache stays coherent), for the oracle whose digest requests are those model functions on the signed transaction (DigestsAreC02) - and observed here: the digests computed from the skeleton alone equal the real functions' results on the signed transaction, for every verified input",
 		"wallet keys are taken from the real wallet's own listing (-l -atype pks); key derivation is C14's subject",
 		"amounts and sums < 2^64 (beyond: StringToSatoshis / spendBtc wrap silently — DESIGN O4, observation only)",
+		"balance/unspent.txt names pairwise distinct outpoints (hnd of inputs_distinct; duplicate or malformed lines are not generated) and balance/<txid>.tx files hash to their names (damaged files ARE generated: exit 1, nothing written)",
 		".others raw-key files ARE exercised (1..3 imported keys in front of the deterministic ones, compressed and uncompressed WIF, labels, comment / empty / undecodable lines, wrong-network version byte); an uncompressed key owns its P2PKH address only - P2WPKH / P2TR outputs built from an uncompressed key's hash / x coordinate (which pkscr_to_key would also attribute to it) are not generated; litecoin mode, the deprecated -u switch, -prompt, scrypt and BIP39 password entry are not exercised",
 	}
 
